@@ -102,6 +102,58 @@ pub fn expected_view(spec: &RespSpec) -> String {
     )
 }
 
+/// A small independent reader of ONE response that must consume the bytes exactly; result in `expected_view` form.
+pub fn read_one_view(b: &[u8]) -> Option<String> {
+    let line_end = b.windows(2).position(|w| w == b"\r\n")?;
+    let status = &b[..line_end];
+    let mut parts = status.splitn(2, |c| *c == b' ');
+    let ver = parts.next()?;
+    let rest = parts.next()?;
+    if rest.last() != Some(&b' ') {
+        return None;
+    }
+    let code = &rest[..rest.len() - 1];
+    let v = match ver {
+        b"HTTP/1.0" => "1.0",
+        b"HTTP/1.1" => "1.1",
+        _ => return None,
+    };
+    let mut pos = line_end + 2;
+    let mut lines: Vec<Vec<u8>> = vec![];
+    loop {
+        let e = b[pos..].windows(2).position(|w| w == b"\r\n")?;
+        if e == 0 {
+            pos += 2;
+            break;
+        }
+        lines.push(b[pos..pos + e].to_vec());
+        pos += e + 2;
+    }
+    let mut cl: Option<usize> = None;
+    for l in &lines {
+        if let Some(vv) = l.strip_prefix(b"Content-Length: ") {
+            cl = std::str::from_utf8(vv).ok().and_then(|t| t.parse().ok());
+            break;
+        }
+    }
+    let body = match cl {
+        Some(n) => {
+            if b.len() != pos + n {
+                return None;
+            }
+            b[pos..].to_vec()
+        }
+        None => {
+            if b.len() != pos {
+                return None;
+            }
+            vec![]
+        }
+    };
+    let hl: Vec<String> = lines.iter().map(|l| hx(l)).collect();
+    Some(format!("(v={} code={} hdrs={} body={})", v, String::from_utf8_lossy(code), hl.join(","), hx(&body)))
+}
+
 fn op_alphabet() -> Vec<BOp> {
     vec![
         BOp::Body(vec![]),
@@ -156,6 +208,17 @@ pub fn resp_case(rec: &mut Rec, rng: &mut Rng, spec: &RespSpec, with_sink: bool)
     }
     rec.count(&format!("status:{}", spec.code));
     rec.count(&format!("nops:{}", spec.ops.len()));
+    // implementation-only oracle: an independent reader (status line, lines up to the blank line, Content-Length
+    // bytes of body) recovers exactly what the builder calls say
+    {
+        let view = expected_view(spec);
+        if !view.contains('?') {
+            let got = read_one_view(&bytes);
+            if got.as_deref() != Some(view.as_str()) {
+                rec.oracle_fail("C05", &format!("an independent reader recovers {:?} from the serialized response, the builder calls say {}", got, view), &[op.clone()]);
+            }
+        }
+    }
     rec.op(&op, &hx(&bytes));
     if with_sink {
         // the same bytes however the sink splits the writes
